@@ -104,6 +104,86 @@ def run(ctx):
         # (key, module) of the same map entry
         okl = okl and sum(1 for a in e[2] if any(is_call(x, 'Iterator::next') for x in walk(a))) == 2
     ctx.ob(['C14', 'C15'], 'R-ITER', 'C14-D1|every-module-written', okl, 'build() calls write_module for every module of the resolved state (unfiltered loop, key and module of the same entry, error propagated)', loc(lb.span))
+    # lib::build discovers the inputs: every file `<in_dir>/**/*.pyxis` (default glob options) is handed to add_file
+    disc = [c for c in lb.calls(lambda r: r['path'] and re.match(r'^glob::(glob|glob_with)$', r['path']))]
+    okd, detd = False, 'expected exactly one glob call, found %d' % len(disc)
+    if len(disc) == 1:
+        de = expand(lb, lb.expr_of_call(disc[0]['term']))
+        pat = [x for x in walk(de[2][0]) if isinstance(x, tuple) and x and x[0] == 'const' and isinstance(x[1], str) and x[1].startswith('b"')]
+        dirs = [x for x in walk(de[2][0]) if is_call(x, 'Path::display')]
+        okpat = len(pat) == 1 and re.match(r'^b"\\xc0\\x0b/\*\*/\*\.pyxis(\\x00)?"$', pat[0][1]) is not None and len(dirs) == 1 and strip(dirs[0][2][0])[0] == 'arg'
+        if not okpat:
+            # the same pattern spelled as in_dir.join("**/*.pyxis")
+            joins_ = [x for x in walk(de[2][0]) if is_call(x, 'Path::join') and len(x[2]) == 2 and strip(x[2][0])[0] == 'arg' and ('str', '**/*.pyxis') in list(walk(x[2][1]))]
+            okpat = len(joins_) == 1 and not pat
+        okopt = disc[0]['path'] == 'glob::glob'
+        if not okopt and len(de[2]) == 2:
+            o = strip(de[2][1])
+            if o[0] == 'agg' and o[1].endswith('MatchOptions'):
+                fl = dict(o[2])
+                val = lambda k: strip(fl.get(k, ('?',)))
+                okopt = val('case_sensitive') == ('int', 1, 'bool') and val('require_literal_separator') == ('int', 0, 'bool') and val('require_literal_leading_dot') == ('int', 0, 'bool')
+            elif is_call(o, 'MatchOptions::new') or is_call(o, 'Default::default'):
+                okopt = True
+        okd = bool(okpat and okopt)
+        detd = 'pattern %s over %s, default match options %s' % ([x[1] for x in pat], [show(strip(d_[2][0])) for d_ in dirs], okopt)
+    ctx.ob(['C14', 'C09'], 'R-EXPR', 'C14-D2|input-discovery', okd, 'the inputs are all files matching <in_dir>/**/*.pyxis with the glob crate\'s default options (dot files and every directory depth included): %s' % detd, loc(lb.span))
+    ADD = lambda r: r['path'] and r['path'].endswith('SemanticState::add_file')
+    adds = [(lb, c) for c in lb.calls(ADD)] + [(g_, c) for g_ in P.closures_of(lb) for c in g_.calls(ADD)]
+    oka, deta = False, 'expected exactly one add_file call, found %d' % len(adds)
+
+    def glob_chain_ok(srce):
+        chain = [c_[3] for c_ in calls_in(srce)]
+        adapters = [c_ for c_ in chain if re.search(r'Iterator::\w+$', c_) and not c_.endswith('IntoIterator::into_iter')]
+        okf = adapters == [] or (adapters == ['std::iter::Iterator::filter_map'] and any(isinstance(x, tuple) and x[0] == 'fnref' and x[1].endswith('::ok') for x in walk(srce)))
+        return okf and any(is_call(x, 'glob::glob') for x in walk(srce))
+    if len(adds) == 1 and len(disc) == 1:
+        g_, ac = adds[0]
+        ae = g_.expr_of_call(ac['term'])
+        if g_ is lb:
+            L = innermost_loop(lb, ac['block'])
+            sty, src = loop_source(lb, L) if L else (None, None)
+            srce = strip(expand(lb, src)) if src is not None else ('?',)
+            only_ok = glob_chain_ok(srce)
+            # every trip reaches add_file; the only way round it is the Err case of the element itself (an unreadable entry)
+            every = False
+            if L:
+                h, body, _ = L
+                err_edges = {(s_['block'], tgt) for s_ in lb.switches() if s_['block'] in body and s_['cond'][0] == 'discr' and any(is_call(x, 'Iterator::next') for x in walk(s_['cond'][1]))
+                             for lab, tgt in s_['edges'] if lab == 'Err'}
+                st, seen, every = [x for x in lb.succ(h) if x in body], set(), True
+                while st:
+                    x = st.pop()
+                    if x == h:
+                        every = False
+                        break
+                    if x in seen or x == ac['block']:
+                        continue
+                    seen.add(x)
+                    st.extend(y for y in lb.succ(x) if y in body and (x, y) not in err_edges)
+            prop = any(g.kind == 'reject' and g.pred[0] == 'fails' and find_calls(g.pred, 'add_file') for g in guards_of(lb))
+            elem = len(ae[2]) == 3 and any(is_call(x, 'Iterator::next') for x in walk(ae[2][2])) and any(isinstance(x, tuple) and x[0] == 'arg' for x in walk(ae[2][1])) and \
+                not any(is_call(x, 'Iterator::next') for x in walk(ae[2][1]))
+            form = 'loop over the glob result'
+        else:
+            # glob(..).filter_map(Result::ok).try_for_each(|p| state.add_file(in_dir, &p))?
+            tfe = [c for c in lb.calls(lambda r: r['gpath'] and r['gpath'].endswith('Iterator::try_for_each'))]
+            only_ok = every = prop = elem = False
+            if len(tfe) == 1:
+                te = lb.expr_of_call(tfe[0]['term'])
+                only_ok = glob_chain_ok(strip(expand(lb, te[2][0]))) and te[2][1][0] == 'closure' and te[2][1][1] == g_.id
+                exits = g_.exits()
+                every = all(g_.dominates(ac['block'], x['block']) for x in exits) and len(g_.calls(ADD)) == 1 and \
+                    all(any(is_call(y, 'add_file') for y in walk(expand(g_, x['expr']))) for x in exits)
+                prop = any(g.kind == 'reject' and g.pred[0] == 'fails' and find_calls(g.pred, 'try_for_each') for g in guards_of(lb))
+                caps = te[2][1][2] if len(te[2][1]) > 2 else []
+                ups = [x[1] for x in walk(ae[2][1]) if isinstance(x, tuple) and x[0] == 'upvar']
+                elem = len(ae[2]) == 3 and any(isinstance(x, tuple) and x[0] == 'arg' and x[1] >= 2 for x in walk(ae[2][2])) and len(ups) == 1 and ups[0] < len(caps) and \
+                    strip(caps[ups[0]])[0] == 'arg'
+            form = 'try_for_each over the glob result'
+        oka = bool(only_ok and every and prop and elem)
+        deta = '%s (only adapter filter_map(Result::ok): %s), add_file on every trip %s, error propagated %s, arguments (in_dir, found path) %s' % (form, only_ok, every, prop, elem)
+    ctx.ob(['C14'], 'R-ITER', 'C14-D2|every-found-file-added', oka, 'every discovered file is parsed and added with its path relative to in_dir: %s' % deta, loc(lb.span))
     # ---- C13-D1 parse gate
     pf = [c for c in wm.calls(lambda r: r['path'] == 'syn::parse_file')]
     okg = False
@@ -309,6 +389,23 @@ def run(ctx):
             x = strip(x[2][0])
         return x[0] == 'field' and x[2] == nm and strip(x[1])[0] in ('arg', 'field', 'payload')
 
+    ADAPT_BAD = r'Iterator::(rev|skip|take|filter|step_by|last|nth|max|min|map_while|scan|take_while|skip_while|fuse|cycle)$'
+
+    def chain_ok(j):
+        """an iterator chain that keeps every section of every backend in order: flat_map present, no dropping / reordering adapter
+        in the chain or in its closures"""
+        chain = [c_[3] for c_ in calls_in(j)]
+        inner_ok = True
+        for x in walk(j):
+            if isinstance(x, tuple) and x[0] == 'closure' and x[1] in P.fns:
+                for y in [P.fns[x[1]]] + P.closures_of(P.fns[x[1]]):
+                    for e_ in y.exits():
+                        ch2 = [c_[3] for c_ in calls_in(expand(y, e_['expr']))]
+                        if any(re.search(ADAPT_BAD, c_) for c_ in ch2):
+                            inner_ok = False
+        ok_ = inner_ok and not any(re.search(ADAPT_BAD + r'|::sort|::dedup', c_) for c_ in chain) and any(c_.endswith('Iterator::flat_map') for c_ in chain)
+        return ok_, [short(c_) for c_ in chain]
+
     def joined_in_helper(e, nm):
         """join written as a helper: H(backends, |b| b.<nm>.as_deref()) where H pushes section(b) for every backend that has one,
         in order, and joins with a newline.  Returns (ok, detail) or None if `e` is not such a call"""
@@ -328,6 +425,10 @@ def run(ctx):
                 sepok = strip(sj['sep']) == ('int', 10, 'char')
                 unad = is_call(src, 'Iterator::filter_map') and is_call(strip(src[2][0]), 'slice::<impl [T]>::iter') and strip(strip(src[2][0])[2][0])[0] == 'arg' and strip(src[2][1])[0] == 'arg'
                 textok = strip(sj['elem'])[0] == 'field' and strip(sj['elem'])[2] == '1'
+                if sepok and textok and src[0] == 'arg':
+                    # the helper joins whatever iterator it is handed: the caller's chain is the joined sequence
+                    okc, detc = chain_ok(expand(wm, e[2][src[1] - 1]))
+                    return okc, 'helper %s (separator loop over its iterator argument; caller chain %s)' % (short(H.id), detc)
                 if not (sepok and unad and textok):
                     return False, 'helper %s: separator loop of unexpected shape (sep %s, source %s)' % (short(H.id), show(sj['sep']), show(src)[:80])
                 ib = strip(strip(src[2][0])[2][0])[1] - 1
@@ -414,20 +515,10 @@ def run(ctx):
                     det = 'join of a vector pushed in a loop over backends["rust"] (whole list %s, pushes backend.%s %s, skipped only when absent %s)' % (base_ok, nm, sec_ok, skip_ok)
                     break
                 if joins_:
-                    j = joins_[0]
-                    chain = [c_[3] for c_ in calls_in(j)]
-                    det = [short(c_) for c_ in chain]
-                    inner_ok = True
-                    for x in walk(j):
-                        if isinstance(x, tuple) and x[0] == 'closure' and x[1] in P.fns:
-                            for y in [P.fns[x[1]]] + P.closures_of(P.fns[x[1]]):
-                                for e_ in y.exits():
-                                    ch2 = [c_[3] for c_ in calls_in(expand(y, e_['expr']))]
-                                    if any(re.search(r'Iterator::(rev|skip|take|filter|step_by|last|nth|max|min|map_while|scan|take_while|skip_while|fuse|cycle)$', c_) for c_ in ch2):
-                                        inner_ok = False
-                    ok = inner_ok and not any(re.search(r'Iterator::(rev|skip|take|filter|step_by|last|nth|max|min|map_while|scan|take_while|skip_while|fuse|cycle)$|::sort|::dedup', c_) for c_ in chain) and any(c_.endswith('Iterator::flat_map') for c_ in chain)
+                    ok, det = chain_ok(joins_[0])
         ctx.ob(['C14'], 'R-ITER', 'C14-D5|%ss-complete-in-order' % nm, ok, 'all %ss of all rust backend blocks are joined in source order, none dropped: %s' % (nm, det), where)
     module_new(ctx)
+    add_file_key(ctx)
     # ---- G13 extern value without address (C15-D2)
     am = [f for f in P.fns.values() if f.id.endswith('SemanticState::add_module')]
     if am:
@@ -488,6 +579,49 @@ def run(ctx):
 
 
 # appended: Module::new (backend blocks, doc) ------------------------------------------------------
+def add_file_key(ctx):
+    """C14-D2 / C19: the module a file becomes is named by the file's own path relative to the input directory, nothing else"""
+    P = ctx.prog
+    f = P.fns.get('semantic::semantic_state::SemanticState::add_file')
+    if f is None:
+        ctx.fail_closed(['C14', 'C19'], 'R-EXPR', 'C14-D2|module-key', 'SemanticState::add_file not found')
+        return
+    cs = [c for c in f.calls(lambda r: r['path'] and r['path'].endswith('SemanticState::add_module'))]
+    ok, det = False, 'expected one add_module call, found %d' % len(cs)
+    if len(cs) == 1:
+        e = f.expr_of_call(cs[0]['term'])
+        key = strip(expand(f, e[2][2]))
+        is_arg = lambda x, i: strip(x)[0] == 'arg' and strip(x)[1] == i
+        # parameters: 1 = self, 2 = base_path, 3 = path
+        def rel_ok(x):
+            x = strip(x)
+            if is_call(x, 'Result::<T, E>::unwrap_or') or is_call(x, 'unwrap_or'):
+                sp = strip(x[2][0])
+                return is_call(sp, 'Path::strip_prefix') and is_arg(sp[2][0], 3) and is_arg(sp[2][1], 2) and is_arg(x[2][1], 3)
+            return False
+        if is_call(key, 'ItemPath::from_path') and len(key[2]) == 1:
+            inner = key[2][0]
+            rows = value_table(f, inner)
+            if len(rows) == 1:
+                ok = rel_ok(rows[0][1])
+            else:
+                # match / if-let spelling: Ok(p) -> p, Err -> path
+                vals = [strip(v) for _, v in rows]
+                okv = all((v[0] == 'payload' and v[2] == 'Ok' and is_call(strip(v[1]), 'Path::strip_prefix') and is_arg(strip(v[1])[2][0], 3) and is_arg(strip(v[1])[2][1], 2)) or is_arg(v, 3) for v in vals)
+                ok = okv and any(v[0] == 'payload' for v in vals) and len(rows) == 2
+            det = show(key)[:160]
+        else:
+            det = 'module key is not ItemPath::from_path(..): %s' % show(key)[:120]
+        # the text parsed is the content of that same file
+        rd = [c for c in f.calls(lambda r: r['path'] and r['path'].endswith('fs::read_to_string'))]
+        okr = len(rd) == 1 and any(isinstance(x, tuple) and x[0] == 'arg' and x[1] == 3 for x in walk(f.expr_of_call(rd[0]['term'])[2][0])) and \
+            any(is_call(x, 'read_to_string') for x in walk(expand(f, e[2][1])))
+        ok = bool(ok and okr)
+        det += '; parsed text = content of the same file: %s' % okr
+    ctx.ob(['C14', 'C19', 'C09', 'C11'], 'R-EXPR', 'C14-D2|module-key', ok,
+           'add_file names the module by the file\'s whole path relative to the input directory (strip_prefix(path, base) or the path itself) and parses that file\'s text: %s' % det, loc(f.span))
+
+
 def module_new(ctx):
     P = ctx.prog
     mn = [f for f in P.fns.values() if f.id.endswith('module::Module::new')]
